@@ -1,6 +1,7 @@
 package impl
 
 import (
+	"fmt"
 	"encoding/hex"
 	gqlparser "github.com/vektah/gqlparser/v2"
 	"sort"
@@ -119,7 +120,14 @@ func LoadHistory(sets [][]string, builtinFirst bool) string {
 			srcs = append(srcs, s)
 			byName[s.Name] = i + 1
 		}
-		sc, err := gqlparser.LoadSchema(srcs...)
+		var sc *ast.Schema
+		var err error
+		if len(out)%2 == 1 {
+			// every other load goes through MustLoadSchema, which must be LoadSchema with a panic for an error
+			sc, err = mustLoad(srcs)
+		} else {
+			sc, err = gqlparser.LoadSchema(srcs...)
+		}
 		if err != nil {
 			out = append(out, ErrObsSrc(err, byName))
 		} else {
@@ -127,6 +135,19 @@ func LoadHistory(sets [][]string, builtinFirst bool) string {
 		}
 	}
 	return strings.Join(out, ";;")
+}
+
+func mustLoad(srcs []*ast.Source) (sc *ast.Schema, err error) {
+	defer func() {
+		if r := recover(); r != nil {
+			if e, ok := r.(error); ok {
+				err = e
+			} else {
+				err = fmt.Errorf("%v", r)
+			}
+		}
+	}()
+	return gqlparser.MustLoadSchema(srcs...), nil
 }
 
 // CanonOfSchema: the order-insensitive dump of a loaded schema.
@@ -239,6 +260,30 @@ func CanonOfSchema(sc *ast.Schema) string {
 func init() {
 	// loadcanon <hex src>… : order-insensitive dump of the loaded schema (hex) or E,…
 	Ops["loadcanon"] = func(a []string) string { return LoadCanon(unhexAll(a)) }
+	// loadlocs <hex src>… : EVERY location of the load error with the file the error names:
+	// `<source index>|<line>:<col>;<line>:<col>…|<hex message>`, or OK
+	Ops["loadlocs"] = func(a []string) string {
+		srcs, _, byName := LoadSources(unhexAll(a))
+		_, err := validator.LoadSchema(srcs...)
+		if err == nil {
+			return "OK"
+		}
+		ge, ok := err.(*gqlerror.Error)
+		if !ok {
+			return "PLAIN"
+		}
+		idx := -1
+		if f, ok := ge.Extensions["file"].(string); ok {
+			if i, ok := byName[f]; ok {
+				idx = i
+			}
+		}
+		var ls []string
+		for _, l := range ge.Locations {
+			ls = append(ls, strconv.Itoa(l.Line)+":"+strconv.Itoa(l.Column))
+		}
+		return strconv.Itoa(idx) + "|" + strings.Join(ls, ";") + "|" + HexW([]byte(ge.Message))
+	}
 	// loadcanonb: validator.LoadSchema(prelude, sources…) with the FIRST source of a multi-source set
 	// marked BuiltIn (definitions of a built-in source are exempt from the reserved-name rule)
 	Ops["loadcanonb"] = func(a []string) string {
